@@ -428,6 +428,28 @@ func (h *Hashgraph) checkSelfParent(event *Event) error {
 	return nil
 }
 
+// Check that the Event extends its creator's chain by exactly one: its index
+// must be the index of the creator's last known Event plus one (0 for a first
+// Event). checkSelfParent has already established that the self-parent is that
+// last known Event.
+func (h *Hashgraph) checkIndex(event *Event) error {
+	creator, ok := h.Store.RepertoireByPubKey()[event.Creator()]
+	if !ok {
+		return fmt.Errorf("Creator %s not found", event.Creator())
+	}
+
+	expected := 0
+	if last, ok := h.Store.KnownEvents()[creator.ID()]; ok {
+		expected = last + 1
+	}
+
+	if event.Index() != expected {
+		return fmt.Errorf("Invalid Event index: got %d, expected %d", event.Index(), expected)
+	}
+
+	return nil
+}
+
 //Check if we know the OtherParent
 func (h *Hashgraph) checkOtherParent(event *Event) error {
 	otherParent := event.OtherParent()
@@ -710,6 +732,15 @@ func (h *Hashgraph) InsertEvent(event *Event, setWireInfo bool) error {
 		} else {
 			h.logger.WithFields(fields).WithError(err).Tracef("CheckSelfParent")
 		}
+		return err
+	}
+
+	if err := h.checkIndex(event); err != nil {
+		h.logger.WithFields(logrus.Fields{
+			"event":   event.Hex(),
+			"creator": event.Creator(),
+			"index":   event.Index(),
+		}).WithError(err).Errorf("CheckIndex")
 		return err
 	}
 
